@@ -30,11 +30,18 @@ USER_TYPES = ['MYGEN', 'mygen', 'GEN_B', 'T10', 'T2', 'ZZ']
 
 
 def user_series(const, n, r):
-    """Deterministic user-defined generator: value = a + b*i + c*j."""
-    a, b, c = const
+    """Deterministic user-defined generator: value = a + b*i + c*j, returned as float64,
+    float32 or integers (discrete draws are legitimate, e.g. class membership)."""
+    a, b, c = const[:3]
+    dtype = const[3] if len(const) > 3 else 'float'
     i = np.arange(n).reshape(n, 1)
     j = np.arange(r).reshape(1, r)
-    return a + b * i + c * j
+    v = a + b * i + c * j
+    if dtype == 'int':
+        return np.round(4 * v).astype(np.int64)
+    if dtype == 'float32':
+        return v.astype(np.float32)
+    return v
 
 
 def _substitute(spec, mapping):
@@ -66,7 +73,8 @@ def strat_mc(draw, tier):
             t = draw(st.sampled_from(USER_TYPES))
             if t not in user_types:
                 user_types[t] = [draw(gen.dyadic(-1, 1)), draw(gen.dyadic(-1, 1, 16)),
-                                 draw(gen.dyadic(-1, 1, 16))]
+                                 draw(gen.dyadic(-1, 1, 16)),
+                                 draw(st.sampled_from(['float', 'float', 'int', 'float32']))]
             dtypes.append(t)
         else:
             dtypes.append(draw(st.sampled_from(NATIVE)))
@@ -97,7 +105,13 @@ def strat_mc(draw, tier):
     r = draw(st.integers(1, 6)) * 2 if draw(st.booleans()) else draw(st.integers(1, 12)) * 2
     return dict(table=table, shared=shared, roots=[root], betas={}, overloads=draw(st.booleans()),
                 np_seed=draw(st.integers(0, 2**31 - 1)), draws=[[dnames[i], dtypes[i]] for i in range(n_draw_vars)],
-                user_types=user_types, R=r, seed_param=draw(st.sampled_from([0, 1, 7, 12345])))
+                user_types=user_types, R=r, seed_param=draw(st.sampled_from([0, 1, 7, 12345])),
+                seed_via=draw(st.sampled_from(['parameters', 'kwarg'])),
+                # an earlier Monte-Carlo formula evaluated on the SAME database (other draw variables)
+                prelude=draw(st.one_of(st.none(), st.lists(
+                    st.tuples(st.sampled_from(['AA_first', 'a_0', 'zz_last', 'Y']),
+                              st.sampled_from(list(user_types) or ['UNIFORM_HALTON2'])),
+                    min_size=1, max_size=2, unique_by=lambda t: t[0]))))
 
 
 def _install_recorders(record):
@@ -136,6 +150,13 @@ def _observe_mc(case):
     b = build.Builder(case['shared'], overloads=case['overloads'])
     e = b.build(case['roots'][0])
     res = {}
+    if case.get('prelude'):
+        import biogeme.expressions as ex
+
+        terms = [ex.bioDraws(n, t) for n, t in case['prelude']] + [ex.bioDraws(n, t) for n, t in case['draws']]
+        pre = ex.MonteCarlo(ex.bioMultSum(terms))
+        pre.get_value_c(database=database, number_of_draws=case['R'], prepare_ids=True)
+    res['record_start'] = len(record)
     values = e.get_value_c(database=database, number_of_draws=case['R'], prepare_ids=True)
     res['values'] = np.asarray(values, dtype=float).tolist()
     res['table'] = np.asarray(database.theDraws, dtype=float).tolist()
@@ -151,9 +172,12 @@ def _observe_mc(case):
         e2 = build.Builder(case['shared'], overloads=case['overloads']).build(case['roots'][0])
         params = Parameters()
         params.set_value(name='number_of_draws', value=case['R'])
-        params.set_value(name='seed', value=case['seed_param'])
         params.set_value(name='number_of_threads', value=1)
-        the = bio.BIOGEME(database2, e2, parameters=params)
+        if case.get('seed_via', 'parameters') == 'kwarg':
+            the = bio.BIOGEME(database2, e2, parameters=params, seed=case['seed_param'])
+        else:
+            params.set_value(name='seed', value=case['seed_param'])
+            the = bio.BIOGEME(database2, e2, parameters=params)
         the.save_iterations = False
         the.generate_html = False
         the.generate_pickle = False
@@ -180,6 +204,8 @@ def judge_mc(case) -> Outcome:
     out.classes += [f'draw_vars={len(names_sorted)}',
                     'order_differs' if appearance != names_sorted else 'order_same']
     out.classes += [('user:' if t in case['user_types'] else 'native:') + t for t in set(types)]
+    out.classes += [f'dtype:{case["user_types"][t][3]}' for t in set(types) if t in case['user_types'] and len(case['user_types'][t]) > 3]
+    out.classes += ['after_prelude' if case.get('prelude') else 'fresh_database', f'seed_via_{case.get("seed_via", "parameters")}']
     feats = features(case, root)
     for n in refsem.walk(root, case['shared']):
         if n[0] == 'LogLogit':
@@ -202,7 +228,7 @@ def judge_mc(case) -> Outcome:
         out.fail(prefix + 'mc:table_shape', f'draw table has shape {table.shape}, expected {(n, R, len(names_sorted))}')
         return out
     # (1) slab k is exactly what the generator of the k-th sorted name's type produced
-    rec = o['record'][: len(names_sorted)]
+    rec = o['record'][o.get('record_start', 0):][: len(names_sorted)]
     for k, name in enumerate(names_sorted):
         t = type_of[name]
         if k >= len(rec) or rec[k][0] != t:
@@ -213,7 +239,7 @@ def judge_mc(case) -> Outcome:
         if produced.shape != (n, R) or not np.array_equal(table[:, :, k], produced):
             out.fail(prefix + 'mc:slab', f'draws of {name!r} (type {t}) are not the series its generator produced')
             break
-        if t in case['user_types'] and not np.array_equal(produced, user_series(case['user_types'][t], n, R)):
+        if t in case['user_types'] and not np.array_equal(produced, np.asarray(user_series(case['user_types'][t], n, R), dtype=float)):
             out.fail(prefix + 'mc:user_series', f'user generator {t} output altered')
             break
     if out.failures:
